@@ -301,6 +301,8 @@ type park struct {
 	entered chan struct{}
 	release chan struct{}
 	armed   atomic.Bool
+	observe bool         // never blocks, only counts the passages
+	hits    atomic.Int32 // passages of the hooked program point
 }
 
 func newPark() *park {
@@ -311,6 +313,10 @@ func newPark() *park {
 }
 
 func (p *park) hit() {
+	p.hits.Add(1)
+	if p.observe {
+		return
+	}
 	if p.armed.CompareAndSwap(true, false) {
 		close(p.entered)
 		select {
@@ -352,6 +358,24 @@ func parkSubmit(w *workerpool.WorkerPool) *park {
 	hookMu.Unlock()
 
 	return p
+}
+
+// observePop counts the dispatcher's passages through the PopOrWait gap without delaying it.
+func observePop(stack any) *park {
+	p := newPark()
+	p.observe = true
+	hookMu.Lock()
+	popParks[stack] = p
+	hookMu.Unlock()
+
+	return p
+}
+
+// settled waits until the dispatcher has passed the gap n times and gives it a moment to register on the condition:
+// a forced schedule that is about one window must not stumble into the other one by chance.
+func (p *park) settled(n int32) {
+	waitFor(bound, func() bool { return p.hits.Load() >= n })
+	time.Sleep(30 * time.Millisecond)
 }
 
 func parkPop(stack any) *park {
